@@ -90,5 +90,8 @@ def main():
     json.dump(sorted(old.values(), key=lambda r: r["mutant"]), open(path, "w"), indent=1)
     missed = [r["mutant"] for r in results if not r.get("error") and not any(v["caught"] for v in r["checks"].values())]
     print("mutants: %d run, %d not caught by their listed checks: %s" % (len(results), len(missed), missed))
+    broken = [r["mutant"] for r in results if r.get("error")]
+    if broken:
+        print("mutants: %d could not be run (patch does not apply / does not build): %s" % (len(broken), broken))
 
 main()
